@@ -75,7 +75,7 @@ def run_proof(modname, proofname, opts=None, sources=None):
         res['native'] = getattr(decl, 'native', True)
         ex = Explorer(branch_timeout_ms=opts.get('branch_timeout_ms', 5000),
                       query_timeout_ms=opts.get('query_timeout_ms', 10000),
-                      max_paths=opts.get('max_paths', 20000))
+                      max_paths=opts.get('max_paths', 60000))
         undo_base = snapshot_modules(it)
 
         def one(path):
